@@ -43,3 +43,27 @@ Definition check_comment (c : option str * str * option (list str) * option (str
   | Some cm, Some (i, raw) => str_eqb (c_indent cm) i && str_eqb (raw_text_of cm) raw
   | _, _ => false
   end.
+
+(* histories: initial parent, then per step the operation and what the implementation showed afterwards
+   (0 = returned / exception code, raw_meta_with_comments with indents, posting indent, indent_by) *)
+Definition exn_code (e : exn) : Z :=
+  match e with
+  | ValueError => 1 | IndexError => 2 | KeyError => 3 | AssertionError => 4 | TypeError => 5
+  | NotImplementedErr => 6 | OutOfFuel => 7 | ModelStuck => 8
+  end.
+Record hobs := mkhobs { h_res : Z; h_items : list item; h_indent : option str; h_indent_by : str }.
+Record hcase := mkhcase { hc_indent : option str; hc_indent_by : str; hc_items : list item;
+                          hc_steps : list (hop * hobs) }.
+
+Fixpoint run_hsteps (p : parent) (steps : list (hop * hobs)) : bool :=
+  match steps with
+  | [] => true
+  | (o, ob) :: r =>
+    let '(p', rr) := hstep p o in
+    (match rr with Ok _ => 0 | Err e => exn_code e end =? h_res ob)
+    && list_eqb item_eqb (p_items p') (h_items ob)
+    && opt_eqb str_eqb (p_indent p') (h_indent ob) && str_eqb (p_indent_by p') (h_indent_by ob)
+    && run_hsteps p' r
+  end.
+Definition check_hcase (c : hcase) : bool :=
+  run_hsteps (mkparent (hc_indent c) (hc_indent_by c) (hc_items c)) (hc_steps c).
